@@ -12,14 +12,15 @@ import (
 
 // ScriptOpts steer script generation.
 type ScriptOpts struct {
-	MaxMsgs    int
-	MaxSize    int
-	Pacing     string // eager, lag, mixed
-	Status     bool   // random non-OK statuses allowed
-	Meta       bool   // headers / trailers / request metadata
-	Shapes     []string
-	BudgetLeft *int // total payload bytes budget shared across RPCs (nil = none)
-	BigProb    int  // percentage of multi-megabyte messages
+	MaxMsgs     int
+	MaxSize     int
+	Pacing      string // eager, lag, mixed
+	Status      bool   // random non-OK statuses allowed
+	Meta        bool   // headers / trailers / request metadata
+	Shapes      []string
+	BudgetLeft  *int // total payload bytes budget shared across RPCs (nil = none)
+	BigProb     int  // percentage of multi-megabyte messages
+	FlowControl bool // revision one negotiated (some patterns are only deadlock-free with flow control)
 }
 
 func (o *ScriptOpts) size(rng *rand.Rand) int {
@@ -50,7 +51,7 @@ func pace(rng *rand.Rand, pacing string) []Op {
 	return nil
 }
 
-var shapeNames = []string{"Unary", "ClientStream", "ServerStream", "Bidi-full", "Bidi-pingpong", "Bidi-half"}
+var shapeNames = []string{"Unary", "ClientStream", "ServerStream", "Bidi-full", "Bidi-pingpong", "Bidi-half", "Bidi-early-return", "Empty-streams"}
 
 // GenRPC builds one scripted RPC.
 func GenRPC(rng *rand.Rand, id string, o ScriptOpts) *RPCSpec {
@@ -156,6 +157,43 @@ func GenRPC(rng *rand.Rand, id string, o ScriptOpts) *RPCSpec {
 			spec.Handler = append(spec.Handler, Op{K: "recv"}, Op{K: "send", N: o.size(rng)})
 		}
 		spec.Client = append(spec.Client, Op{K: "close"}, Op{K: "recvall"}, Op{K: "trailer"}, Op{K: "header"})
+		spec.Handler = append(spec.Handler, Op{K: "recv"}) // EOF
+		spec.Handler = append(spec.Handler, hpost...)
+		spec.Handler = append(spec.Handler, ret)
+	case "Bidi-early-return":
+		// the handler answers the first request and returns while the caller is still sending:
+		// later sends may fail or not; frames for the finished stream must be ignored
+		spec.Method = "Bidi"
+		spec.Client = []Op{{K: "open"}}
+		for i := 0; i < n+2; i++ {
+			spec.Client = append(spec.Client, Op{K: "send", N: o.size(rng)})
+		}
+		spec.Client = append(spec.Client, Op{K: "close"}, Op{K: "recvall"}, Op{K: "trailer"}, Op{K: "header"})
+		spec.Handler = append(spec.Handler, hpre...)
+		// (the caller does not read before it has sent everything: the single response must fit
+		// the one-slot receive queue of revision zero, or the pattern is not deadlock-free there)
+		respSize := rng.Intn(200)
+		if o.FlowControl {
+			// with flow control it must fit the caller's window unread (the caller reads only after sending)
+			if respSize = o.size(rng); respSize > 60000 {
+				respSize = 60000
+			}
+		}
+		spec.Handler = append(spec.Handler, Op{K: "recv"}, Op{K: "send", N: respSize})
+		spec.Handler = append(spec.Handler, hpost...)
+		spec.Handler = append(spec.Handler, ret)
+	case "Empty-streams":
+		// no message in either direction
+		if rng.Intn(2) == 0 {
+			spec.Method = "ClientStream"
+			if ret.Code == codes.OK {
+				ret.Code, ret.Msg = codes.FailedPrecondition, "nothing to say"
+			}
+		} else {
+			spec.Method = "Bidi"
+		}
+		spec.Client = []Op{{K: "open"}, {K: "close"}, {K: "recvall"}, {K: "trailer"}, {K: "header"}}
+		spec.Handler = append(spec.Handler, hpre...)
 		spec.Handler = append(spec.Handler, Op{K: "recv"}) // EOF
 		spec.Handler = append(spec.Handler, hpost...)
 		spec.Handler = append(spec.Handler, ret)
